@@ -682,7 +682,13 @@ impl Server for Gs3Server {
             conn.reply(d);
         } else if data.len() >= 7 && data[.. 3] == [0xfe, 0xfd, 0x00] {
             self.data_requests.push(data.to_vec());
-            conn.reply_all(self.dgrams.iter().cloned());
+            // like a real server, answer only a data request that carries the challenge just issued (a challenge text
+            // that is not a non-zero 32-bit number has no defined echo: answered whatever is sent)
+            let zero = self.challenge_text.trim_end_matches('\0').parse::<i32>().map(|c| c == 0).unwrap_or(true);
+            match self.expected_data_request() {
+                Some(e) if !zero && (data.len() < 11 || data[.. 11] != e[.. 11]) => {}
+                _ => conn.reply_all(self.dgrams.iter().cloned()),
+            }
         } else {
             self.bad_requests.push(data.to_vec());
         }
